@@ -12,6 +12,8 @@ Decomposition (assume-guarantee; every part executes the real code):
  (F) filling: every anchor's lattice triangle lies inside the segment triangle: monolithic bit-vector
      query for small levels (the h=16 query timed out at 600 s); for all levels it follows by
      induction from (G)'s containment obligation (child triangle inside the parent's).
+ (E) exactness premise: the digit loop of the real _ij_to_s passes exactly (input - pivot)/2^i to the extraction at every
+     level (symbolic real input, extraction stubbed to arbitrary symbolic digits).
  (R) the whole real round trip without stubs for small levels, with a symbolic perturbation.
 """
 import z3
@@ -269,6 +271,54 @@ def h_fill(c, h, invert_j, flip_ij, j):
     c.prove(sx.And(sx.Or(fx == 1, fx == -1), sx.Or(fy == 1, fy == -1), a.k >= 0, a.k <= 3), "fill:flips-and-k-well-formed")
 
 
+# ---------------------------------------------------------------------------------- (E)
+def h_loop_exact(c, h, o):
+    """premise of the induction: the digit loop of the real _ij_to_s hands ij_to_quaternary EXACTLY (input - pivot)/2^i at
+    every level (no rounding, clamping or snapping in between), for every real input."""
+    H = restore()
+    sf.install_float_mode(c, "real")
+    u = sf.real_input(c, "u", -2 ** 29, 2 ** 29)
+    v = sf.real_input(c, "v", -2 ** 29, 2 ** 29)
+    seen = []
+    real_q = _orig["ij_to_quaternary"]
+    digs = [c.int("d%d" % i, 0, 3) for i in range(h)]
+    feed = list(digs)
+
+    def spy(ij, flips):
+        seen.append((ij, tuple(flips)))
+        return feed.pop(0)
+    H.ij_to_quaternary = spy
+    H.quaternary_to_kj = merged(_orig["quaternary_to_kj"], "quaternary_to_kj")
+    H.quaternary_to_flips = merged(_orig["quaternary_to_flips"], "quaternary_to_flips")
+    H._shift_digits = merged(_orig["_shift_digits"], "_shift_digits")
+    try:
+        H.ij_to_s((u, v), h, o)
+    finally:
+        restore()
+    c.prove(len(seen) == h, "loop:one-extraction-per-level")
+    # expected arguments recomputed independently: pivot accumulates kj_to_ij(quaternary_to_kj(d, flips)) * 2^i
+    flip_ij = o in ("wu", "uw")
+    invert_j = o in ("wv", "vw")
+    iu, iv_ = (v, u) if flip_ij else (u, v)
+    if invert_j:
+        iv_ = (1 << h) - (iu + iv_)
+    pu, pv = 0.0, 0.0
+    fl = [NO, NO]
+    ok = []
+    qk = merged(_orig["quaternary_to_kj"], "quaternary_to_kj")
+    qf = merged(_orig["quaternary_to_flips"], "quaternary_to_flips")
+    for n, i in enumerate(range(h - 1, -1, -1)):
+        scale = 1 << i
+        (au, av), fseen = seen[n]
+        ok.append(sx.And(au == (iu - pu) / scale, av == (iv_ - pv) / scale, fseen[0] == fl[0], fseen[1] == fl[1]))
+        kj = qk(digs[n], tuple(fl))
+        off = _orig["kj_to_ij"](kj)
+        pu, pv = pu + off[0] * scale, pv + off[1] * scale
+        nf = qf(digs[n])
+        fl = [fl[0] * nf[0], fl[1] * nf[1]]
+    c.prove(sx.And(*ok), "loop:extraction-argument==(input-pivot)/2^i-exactly", info={"candidate": True, "h": h, "o": o})
+
+
 # ---------------------------------------------------------------------------------- (R)
 def h_real(c, h, o):
     H = restore()
@@ -310,6 +360,9 @@ def jobs(tier, seed):
     for h in bh:
         for o in ORIENTATIONS:
             js.append(Job("B[h=%d,%s]" % (h, o), "h_base", {"h": h, "o": o}, {"logic": None}, weight=3))
+    for h in ([1, 2, 3] if tier == "quick" else [1, 2, 3, 4, 6]):
+        for o in ORIENTATIONS:
+            js.append(Job("E[h=%d,%s]" % (h, o), "h_loop_exact", {"h": h, "o": o}, {"logic": None, "max_paths": 2000}, weight=2))
     for h in ([1, 2, 3] if tier == "quick" else [1, 2, 3, 4]):
         for o in ORIENTATIONS:
             js.append(Job("R[h=%d,%s]" % (h, o), "h_real", {"h": h, "o": o}, {"logic": None, "max_paths": 100000}, weight=4 ** h / 4))
